@@ -15,6 +15,9 @@ Lens == <<0, 3, 4, 5, 31, 32, 33>> \o (IF IOEnv.VERIF_TIER = "thorough" THEN <<1
 None == <<>>
 Some(x) == <<x>>
 Sids == <<None, Some(<<7>>), Some(Fill(3, 32))>>
+LongSids == <<Some(Fill(4, 33)), Some(Fill(5, 255)), Some(Fill(6, 1000)), Some(<<>>)>>       \* only constructed values can carry these
+MeaningExts == <<Some(<<0, 43, 0, 2, 3, 4>>), Some(<<0, 43, 0, 2, 3, 3>>), Some(<<0, 43, 0, 3, 2, 3, 4>>), Some(<<0, 35, 0, 2, 1, 2, 0, 43, 0, 2, 127, 18>>),
+                 Some(<<0, 0, 0, 0, 0, 43, 0, 2, 3, 1>>)>>
 CiphLists == <<<<>>, <<47>>, <<4865, 4866, 2570, 49199, 65535, 255, 0, 1, 49200, 22016, 13, 14>>, <<19, 19, 20>>>>
 Exts == <<None, Some(<<>>), Some(<<0, 23, 0, 0>>)>>
 Comps == <<<<>>, <<0>>, <<1, 0, 255>>>>
@@ -64,7 +67,14 @@ MagicCases ==
       [kind |-> <<"new_server_hello", "parsed_server_hello", "new_client_hello", "parsed_client_hello", "parsed_dtls_client_hello">>[q],
        ver |-> <<771, 771, 769, 772, 65277>>[q], random |-> MagicRands[r], sid |-> Sids[r],
        ciphers |-> IF q <= 2 THEN <<4865>> ELSE <<4865, 47>>, comp |-> <<0>>, ext |-> Exts[r]]]])
-ASSUME TLCSet(1, NewCases \o ParsedCases \o AllIdCases \o ServerIdCases \o PatternCases \o MagicCases)
+(* constructors store what they are given: session ids of any length; accessors ignore what the extension block says *)
+StoredCases ==
+  Concat([x \in 1..5 |->
+    [q \in 1..6 |->
+      [kind |-> <<"new_server_hello", "parsed_server_hello", "new_client_hello", "parsed_client_hello", "parsed_dtls_client_hello", "new_server_hello">>[q],
+       ver |-> <<771, 770, 769, 771, 65277, 65277>>[q], random |-> Rand(2, 32), sid |-> IF q \in {1, 3, 6} THEN LongSids[((x + q) % 4) + 1] ELSE Sids[(x % 3) + 1],
+       ciphers |-> IF q \in {1, 2, 6} THEN <<47>> ELSE <<47, 4865>>, comp |-> <<0>>, ext |-> MeaningExts[x]]]])
+ASSUME TLCSet(1, NewCases \o ParsedCases \o AllIdCases \o ServerIdCases \o PatternCases \o MagicCases \o StoredCases)
 Cases == TLCGet(1)
 N == Len(Cases)
 
